@@ -33,6 +33,7 @@ WEAK = {
     "PruneNewest": ("C15_weak_PruneNewest.cfg", {"PruneWholeOldest"}),
 }
 
+ACTS_SEEN = {}
 SMALL_HEAD, SMALL_TOTAL = 100, 260     # bytes: ~3 / ~7 small records, like HeadLimit/TotalLimit = 30/70 in the model
 
 
@@ -79,7 +80,9 @@ def behaviours_to_scheds(ctx, prefix, limit):
             raise Undecided("cannot parse simulated behaviour %s: %s" % (fn, e))
         steps = []
         for _h, st in beh:
-            steps += act_to_steps(to_json(st["act"]))
+            a = to_json(st["act"])
+            ACTS_SEEN[a["name"]] = ACTS_SEEN.get(a["name"], 0) + 1
+            steps += act_to_steps(a)
         while steps and steps[-1]["op"] in ("Crash", "Corrupt", "Stop"):
             steps.pop()
         if not steps:
@@ -428,6 +431,7 @@ def run(ctx):
         "conformance_drift": [{"what": d["what"], "step": slim(d["row"])} for d in drift[:5]],
         "conformance_drift_count": len(drift),
         "nonvacuity": nonvac,
+        "spec_actions_in_simulated_behaviours": dict(ACTS_SEEN),
         "known_findings_reproduced": dict(verdict.known),
     }
     rc = verdict.finish()
